@@ -17,6 +17,16 @@ REG = {
         ],
         "trusted_base": ["modelled, not verified: bcrypt (not involved in the decision), yaml.v3 account file round-trip (observed through the code's own loader)"],
     },
+    "C01": {
+        "assumptions": [
+            "objects are fresh (readOffset 0) when drained; Transaction.Read re-encodes fields from fresh copies",
+            "Go slices handed to decoders have cap == len (as the server's token copies do)",
+            "FilePath.Write is modelled for path data below 3.5 KB (bufio.Scanner's 4 KiB initial buffer; larger inputs change which malformed slices panic)",
+        ],
+        "trusted_base": ["translator: Gen/ReaderShapes.v (shape of every Read method of package hotline) regenerated on every run",
+                         "reference layouts coq/Wire/Types.v transcribed from docs/HLProtocol.pages.pdf (spec/wire-layouts.md)",
+                         "modelled, not verified: io.ReadAll / io.Copy (as draining scripts), bufio.Scanner token limit, binary.Read, bcrypt inside Account.Read (abstracted to the has-password flag)"],
+    },
     "C16": {
         "assumptions": [
             "YAML documents are modelled as key->bool association lists; yaml.v3 itself (struct marshalling in field order, mapping/sequence decoding) is exercised through the real account manager on every run, not verified",
